@@ -224,6 +224,23 @@ theorem rerun_record_length (P : Params σ β γ) (s : Drv σ β γ) (ev : EvalT
     | none => simp [hs] at hb
     | some b0 => simp [hs] at hb; subst hb; simp [numCols]
 
+/-- The record is the record of the LAST run: `reset_to_initial_state`, both setters (raising or
+    not), a direct `run_one_time_step` and a `run` that raises leave `_results` (hence `times()`)
+    and the bond-dimension record exactly as they were - in particular a setter does not rescale the
+    stored times to the new step size. -/
+theorem record_untouched_between_runs (P : Params σ β γ) (s : Drv σ β γ) (e : Event)
+    (he : ∀ ev, e = .run ev → ev = some 0) :
+    (apply P e s).1.results = s.results ∧ (apply P e s).1.bond = s.bond := by
+  cases e with
+  | run ev =>
+    have := he ev rfl
+    subst this
+    exact ⟨rfl, rfl⟩
+  | reset => exact ⟨rfl, rfl⟩
+  | step => exact ⟨rfl, rfl⟩
+  | setN m => simp only [apply]; split <;> exact ⟨rfl, rfl⟩
+  | setC m => simp only [apply]; split <;> (try split) <;> exact ⟨rfl, rfl⟩
+
 /-! ### `results` / `times()` addressing -/
 
 /-- `times()` after a run started in any state: for an integer interval `k ≥ 1` entry `j` is
